@@ -236,14 +236,21 @@ def run_fallback(case):
     U = (X - X.min(0)) / (X.max(0) - X.min(0)) * 0.8 + 0.1
     w = np.ones(n)
     for fb in (1e6, 7.5):
-        for mode in ("global", "particles"):
+        for mode in ("global", "particles", "particles-empty-cluster", "particles-empty-first"):
             with OwnedRandom(case["seed"]):
                 with np.errstate(all="ignore"):
                     if mode == "global":
                         ms = ModeStatistics.from_global(U, w, dof_fallback=fb)
-                    else:
+                    elif mode == "particles":
                         labels = (np.arange(n) % 2)
                         ms = ModeStatistics.from_particles(U, w, labels, dof_fallback=fb)
+                    elif mode == "particles-empty-cluster":
+                        # the way Trainer calls it: one row per cluster of the model; clusters 1 and 3 attract no particle
+                        labels = (np.arange(n) % 2) * 2
+                        ms = ModeStatistics.from_particles(U, w, labels, dof_fallback=fb, n_modes=4)
+                    else:
+                        labels = 1 + (np.arange(n) % 2)
+                        ms = ModeStatistics.from_particles(U, w, labels, dof_fallback=fb, n_modes=3)
             res.evals += 1
             dof = np.asarray(ms.degrees_of_freedom, dtype=float)
             cc = dict(case, fb=fb, mode=mode)
